@@ -288,4 +288,35 @@ def validateFull (errs : List (Path × Viol)) (o : Opts) : Option Result := vali
 def validateFullAsIs (errs : List (Path × Viol)) (o : Opts) : Option Result :=
   validateFullWith mkErrAsIs errs o
 
+/-! ### several strategies (`WithRunAll`) and the interface strategy -/
+
+/-- `coerceToValidationErrors` on the `*Error` a `Validate()` method returned (non-empty): cut to
+    the maximum with `Truncated`, then sort -/
+def coerce (errs : List FieldErr) (o : Opts) : Option Result :=
+  if errs.isEmpty then none
+  else if o.maxErrors > 0 ∧ errs.length > o.maxErrors then
+    some { fields := sortErrs (errs.take o.maxErrors), truncated := true }
+  else some { fields := sortErrs errs, truncated := false }
+
+/-- the loop of `validateAll` over the results of the applicable strategies, in order:
+    `all.AddError(err)`, then the cap test. After the `fix:` commit for K05g the list is cut to the
+    maximum (`trim`); as shipped it was not. -/
+def allLoop (trim : Bool) (o : Opts) : List (Option Result) → List FieldErr → Bool → Result
+  | [], acc, t => { fields := acc, truncated := t }
+  | none :: rest, acc, t => allLoop trim o rest acc t
+  | some r :: rest, acc, t =>
+    if o.maxErrors > 0 ∧ (acc ++ r.fields).length ≥ o.maxErrors then
+      { fields := if trim then (acc ++ r.fields).take o.maxErrors else acc ++ r.fields, truncated := true }
+    else allLoop trim o rest (acc ++ r.fields) (t || r.truncated)
+
+/-- `validateAll` (without `requireAny`) -/
+def validateAllWith (trim : Bool) (parts : List (Option Result)) (o : Opts) : Option Result :=
+  let r := allLoop trim o parts [] false
+  if r.fields.isEmpty then none else some { r with fields := sortErrs r.fields }
+
+def validateAll (parts : List (Option Result)) (o : Opts) : Option Result := validateAllWith true parts o
+
+/-- as shipped (K05g) -/
+def validateAllAsIs (parts : List (Option Result)) (o : Opts) : Option Result := validateAllWith false parts o
+
 end Rivaas.Presence
